@@ -309,6 +309,79 @@ fn check_fixed<const N: usize>(acc: &mut Acc) {
     }
 }
 
+/// Call-order independence: a length style is a function of its argument alone, so no call may
+/// depend on the calls made before it (a memo, a reused buffer, a thread-local scratch value).
+/// Every ordered pair (thorough: triple) of calls over an alphabet of (style, serialize n) and
+/// (style, deserialize prefix(n) + trailer) runs back to back on one thread, and every style pair
+/// is run back to back on every common length; each result is compared with the reference.
+fn check_call_order(thorough: bool, acc: &mut Acc) {
+    let sts = styles();
+    let alpha: [usize; 14] = [0, 1, 4, 9, 10, 11, 99, 100, 127, 128, 255, 256, 999, 65535];
+    // (style index, is_de, n)
+    let mut ops: Vec<(usize, bool, usize)> = vec![];
+    for (si, st) in sts.iter().enumerate() {
+        for &n in alpha.iter().filter(|n| **n <= st.max) {
+            ops.push((si, false, n));
+            ops.push((si, true, n));
+        }
+    }
+    let run_op = |o: &(usize, bool, usize), ctx: &str, acc: &mut Acc| {
+        let st = &sts[o.0];
+        acc.count("calls", 1);
+        let want = (st.reference)(o.2);
+        if !o.1 {
+            match guarded(|| (st.ser)(o.2)) {
+                Ok(g) if g == want => {}
+                Ok(g) => acc.violation(viol(format!("c16/order/{ctx}"), format!("after the calls [{ctx}]: {}::serialize({}) = {} but the format's shortest prefix is {} (the result depends on earlier calls)", st.name, o.2, hex(&g), hex(&want)), 0)),
+                Err(p) => acc.violation(viol(format!("c16/order/{ctx}"), format!("after the calls [{ctx}]: {}::serialize({}) panicked: {p}", st.name, o.2), 0)),
+            }
+        } else {
+            let mut input = want.clone();
+            input.extend([0x5a, 0x82]);
+            match guarded(|| (st.de)(&input)) {
+                Ok(Ok((n, rest))) if n == o.2 && rest == 2 => {}
+                other => acc.violation(viol(format!("c16/order/{ctx}"), format!("after the calls [{ctx}]: {}::deserialize({}) = {:?}, expected ({}, 2 bytes left)", st.name, hex(&input), other.map(|r| r.map_err(|e| format!("{e:?}"))), o.2), 0)),
+            }
+        }
+    };
+    let label = |o: &(usize, bool, usize)| format!("{}::{}({})", sts[o.0].name, if o.1 { "de" } else { "ser" }, o.2);
+    for a in &ops {
+        for b in &ops {
+            acc.count("cases", 1);
+            acc.count("order_cases", 1);
+            let ctx = format!("{} {}", label(a), label(b));
+            run_op(a, &label(a), acc);
+            run_op(b, &ctx, acc);
+            if thorough {
+                for c in &ops {
+                    acc.count("cases", 1);
+                    acc.count("order_cases", 1);
+                    run_op(a, &label(a), acc);
+                    run_op(b, &ctx, acc);
+                    run_op(c, &format!("{ctx} {}", label(c)), acc);
+                }
+            }
+        }
+    }
+    // every pair of styles back to back on every common length, in both directions of the codec
+    for n in 0..=999usize {
+        for (ai, a) in sts.iter().enumerate() {
+            for (bi, b) in sts.iter().enumerate() {
+                if ai == bi || n > a.max || n > b.max {
+                    continue;
+                }
+                for (da, db) in [(false, false), (false, true), (true, false), (true, true)] {
+                    acc.count("cases", 1);
+                    acc.count("order_cases", 1);
+                    let (oa, ob) = ((ai, da, n), (bi, db, n));
+                    run_op(&oa, &label(&oa), acc);
+                    run_op(&ob, &format!("{} {}", label(&oa), label(&ob)), acc);
+                }
+            }
+        }
+    }
+}
+
 pub fn run(run: &RunInfo) -> Summary {
     let thorough = run.thorough();
     let sts = styles();
@@ -324,6 +397,7 @@ pub fn run(run: &RunInfo) -> Summary {
         }
     }
     items.push((2, 0, 0));
+    items.push((3, 0, 0));
     let acc = par_for(items.len(), |i, acc| {
         let (kind, si, arg) = items[i];
         match kind {
@@ -335,6 +409,7 @@ pub fn run(run: &RunInfo) -> Summary {
                 check_style(st, &lens, thorough, acc);
             }
             1 => check_strings(&sts[si], arg as u8, thorough, acc),
+            3 => check_call_order(thorough, acc),
             _ => {
                 check_fixed::<1>(acc);
                 check_fixed::<2>(acc);
@@ -383,7 +458,7 @@ pub fn run(run: &RunInfo) -> Summary {
         transitions: calls,
         traces_validated: cases,
         distinct_nontrivial: acc.set_len("prefixes") + acc.get("defined_agree"),
-        rule: "every representable length of Tlv/Adpu (0..=65535), Llv (0..=99), Lllv (0..=999) and every (N, len<=N) of Fixed<1..=17>, each with 4 short trailers, 39 trailing-data lengths around 128 and every multiple of 256 up to 1 KiB, its own payload length (quick: for n <= 2100 and every 97th n), and every truncation of its prefix; every byte string of length 0..2 (thorough: ..3; quick: length 3 for the first bytes 7f,80..83,f0..f9,fe,ff) through every parser. distinct_nontrivial = distinct (style, emitted prefix) pairs + parser inputs on which the format defines the result".into(),
+        rule: "every representable length of Tlv/Adpu (0..=65535), Llv (0..=99), Lllv (0..=999) and every (N, len<=N) of Fixed<1..=17>, each with 4 short trailers, 39 trailing-data lengths around 128 and every multiple of 256 up to 1 KiB, its own payload length (quick: for n <= 2100 and every 97th n), and every truncation of its prefix; call-order independence: every ordered pair (thorough: triple) of calls over {serialize n, deserialize prefix(n)+2 bytes} x 4 styles x 14 lengths, and every ordered pair of styles back to back on every common length 0..=999 in all four serialize/deserialize combinations, each result compared with the reference; every byte string of length 0..2 (thorough: ..3; quick: length 3 for the first bytes 7f,80..83,f0..f9,fe,ff) through every parser. distinct_nontrivial = distinct (style, emitted prefix) pairs + parser inputs on which the format defines the result".into(),
         exhaustive: true,
         required_witnesses: vec!["parser agreed with the format on defined prefixes".into(), "truncated prefixes rejected".into()],
         assumptions: vec![
